@@ -1,5 +1,621 @@
-//! zst scenario (placeholder until implemented)
-use crate::exec::Outcome;
-use crate::script::Script;
-pub fn run(_s: &Script, _k: bool) -> Outcome { crate::harness_fail("zst scenario not built".into()) }
-pub fn gen_zst(_seed: u64, _run: u64) -> Script { unimplemented!() }
+//! The `zst` scenario (C19): a drop-counting zero-sized element and capacities up to
+//! usize::MAX, with front positions driven to within a few slots of 0 and of N. Identity is
+//! impossible for a ZST, so the model is a count model: lengths, return shapes, emptiness /
+//! fullness, documented panics, and created − destroyed = elements in buffers + with the caller.
+
+use crate::elem::{window, PanicKind};
+use crate::exec::{cls, Failure, Outcome, Probe, RunStats, Trace};
+use crate::rng::{mix, Rng};
+use crate::script::{Garbage, Op, RangeSpec, Scenario, Script, Step};
+use crate::with_range;
+use circular_buffer::CircularBuffer;
+use std::cell::Cell;
+use std::fmt::Write as _;
+use std::hash::{Hash, Hasher};
+
+thread_local! {
+    static CREATED: Cell<u64> = const { Cell::new(0) };
+    static DESTROYED: Cell<u64> = const { Cell::new(0) };
+}
+
+pub struct Zst;
+impl Zst {
+    fn new() -> Zst {
+        CREATED.with(|c| c.set(c.get() + 1));
+        Zst
+    }
+}
+impl Drop for Zst {
+    fn drop(&mut self) {
+        DESTROYED.with(|c| c.set(c.get() + 1));
+    }
+}
+impl Clone for Zst {
+    fn clone(&self) -> Zst {
+        Zst::new()
+    }
+}
+impl PartialEq for Zst {
+    fn eq(&self, _: &Zst) -> bool {
+        true
+    }
+}
+impl Eq for Zst {}
+impl PartialOrd for Zst {
+    fn partial_cmp(&self, _: &Zst) -> Option<std::cmp::Ordering> {
+        Some(std::cmp::Ordering::Equal)
+    }
+}
+impl Ord for Zst {
+    fn cmp(&self, _: &Zst) -> std::cmp::Ordering {
+        std::cmp::Ordering::Equal
+    }
+}
+impl Hash for Zst {
+    fn hash<H: Hasher>(&self, h: &mut H) {
+        h.write_u8(7);
+    }
+}
+impl std::fmt::Debug for Zst {
+    fn fmt(&self, f: &mut std::fmt::Formatter<'_>) -> std::fmt::Result {
+        f.write_str("Z")
+    }
+}
+
+pub const ZST_NS: [usize; 10] = [
+    1,
+    2,
+    (1usize << 32) - 1,
+    1usize << 32,
+    (1usize << 32) + 1,
+    (1usize << 63) - 1,
+    1usize << 63,
+    (1usize << 63) + 1,
+    usize::MAX - 1,
+    usize::MAX,
+];
+
+pub fn run(script: &Script, keep: bool) -> Outcome {
+    // `script.n` is an index into ZST_NS
+    match script.n {
+        0 => run_n::<{ ZST_NS[0] }>(script, keep),
+        1 => run_n::<{ ZST_NS[1] }>(script, keep),
+        2 => run_n::<{ ZST_NS[2] }>(script, keep),
+        3 => run_n::<{ ZST_NS[3] }>(script, keep),
+        4 => run_n::<{ ZST_NS[4] }>(script, keep),
+        5 => run_n::<{ ZST_NS[5] }>(script, keep),
+        6 => run_n::<{ ZST_NS[6] }>(script, keep),
+        7 => run_n::<{ ZST_NS[7] }>(script, keep),
+        8 => run_n::<{ ZST_NS[8] }>(script, keep),
+        9 => run_n::<{ ZST_NS[9] }>(script, keep),
+        n => crate::harness_fail(format!("capacity index {n} is not compiled for the zst scenario")),
+    }
+}
+
+struct ZEx<const N: usize> {
+    bufs: [Option<Box<CircularBuffer<N, Zst>>>; 2],
+    len: [usize; 2],
+    hand: Vec<Zst>,
+    trace: Trace,
+    fail: Option<Failure>,
+    stats: RunStats,
+    cur: usize,
+    cur_op: Op,
+    allocs: u32,
+    panicked: bool,
+}
+
+fn run_n<const N: usize>(script: &Script, keep: bool) -> Outcome {
+    CREATED.with(|c| c.set(0));
+    DESTROYED.with(|c| c.set(0));
+    let _ = crate::alloc::take_op_allocs();
+    let mut ex = ZEx::<N> {
+        bufs: [Some(Box::new(CircularBuffer::new())), Some(Box::new(CircularBuffer::new()))],
+        len: [0, 0],
+        hand: Vec::new(),
+        trace: Trace::new(keep),
+        fail: None,
+        stats: RunStats::new(),
+        cur: 0,
+        cur_op: Op::New,
+        allocs: 0,
+        panicked: false,
+    };
+    for (i, st) in script.steps.iter().enumerate() {
+        ex.step(i, st);
+        if ex.fail.is_some() {
+            break;
+        }
+    }
+    if ex.fail.is_none() {
+        // final drop: every element destroyed exactly once
+        for b in 0..2 {
+            let buf = ex.bufs[b].take().unwrap();
+            let r = window(move || drop(buf));
+            if r.is_err() {
+                ex.fail(cls::ZST, "dropping the buffer panicked".into());
+            }
+            ex.bufs[b] = Some(Box::new(CircularBuffer::new()));
+            ex.len[b] = 0;
+        }
+        ex.hand.clear();
+        let (c, d) = (CREATED.with(|c| c.get()), DESTROYED.with(|c| c.get()));
+        if c != d && ex.fail.is_none() {
+            ex.cur = script.steps.len();
+            ex.fail(cls::ZST, format!("after dropping everything: {c} elements created, {d} destructor runs"));
+        }
+    } else {
+        for b in 0..2 {
+            if let Some(buf) = ex.bufs[b].take() {
+                std::mem::forget(buf);
+            }
+        }
+    }
+    Outcome { digest: ex.trace.fnv.0, failure: ex.fail.take(), stats: ex.stats, trace: ex.trace.text.take() }
+}
+
+impl<const N: usize> ZEx<N> {
+    fn fail(&mut self, classes: u32, msg: String) {
+        if self.fail.is_none() {
+            self.fail = Some(Failure { step: self.cur, classes, op: self.cur_op, msg });
+        }
+    }
+
+    fn call<R>(&mut self, expect_panic: bool, f: impl FnOnce() -> R) -> Option<R> {
+        let r = window(f);
+        self.allocs += crate::alloc::take_op_allocs();
+        match r {
+            Ok(v) => {
+                if expect_panic {
+                    self.fail(cls::ZST | cls::PANIC_SPEC, "call returned normally although the documented panic condition holds".into());
+                    drop(v);
+                    None
+                } else {
+                    Some(v)
+                }
+            }
+            Err(PanicKind::Injected(_)) => {
+                self.fail(cls::HARNESS, "injected fault in zst scenario".into());
+                None
+            }
+            Err(PanicKind::Other(m)) => {
+                self.panicked = true;
+                if expect_panic {
+                    self.stats.doc_panics += 1;
+                } else {
+                    self.fail(cls::ZST | cls::PANIC_SPEC, format!("{} panicked at capacity {N}: {m}", self.cur_op.name()));
+                }
+                None
+            }
+        }
+    }
+
+    fn take(&mut self, c: usize) -> Zst {
+        if c > 0 && !self.hand.is_empty() {
+            self.hand.pop().unwrap()
+        } else {
+            Zst::new()
+        }
+    }
+
+    fn step(&mut self, i: usize, st: &Step) {
+        self.cur = i;
+        self.cur_op = st.op;
+        self.allocs = 0;
+        self.panicked = false;
+        self.stats.steps += 1;
+        let x = (st.buf & 1) as usize;
+        let y = 1 - x;
+        let len = self.len[x];
+        let (start, size) = self.bufs[x].as_ref().unwrap().verif_layout();
+        if N > 2 && start >= N - 2 {
+            self.stats.probe(Probe::ZstStartNearN);
+        }
+        if start.checked_add(size).is_none() {
+            self.stats.probe(Probe::ZstAddModOverflow);
+        }
+        let _ = write!(self.trace.line(), "{} {} x={}", i, st.op.name(), x);
+        let mut may_alloc = false;
+        let mut bx = self.bufs[x].take().unwrap();
+        {
+            let b: &mut CircularBuffer<N, Zst> = &mut bx;
+            match st.op {
+                Op::PushBack | Op::PushFront => {
+                    let t = self.take(st.c);
+                    let back = st.op == Op::PushBack;
+                    if let Some(r) = self.call(false, || if back { b.push_back(t) } else { b.push_front(t) }) {
+                        let want_some = len == N;
+                        if r.is_some() != want_some {
+                            self.fail(cls::ZST, format!("{} at len {len} returned {}", st.op.name(), if r.is_some() { "Some" } else { "None" }));
+                        }
+                        if let Some(t) = r {
+                            self.hand.push(t);
+                        } else {
+                            self.len[x] += 1;
+                        }
+                    }
+                }
+                Op::TryPushBack | Op::TryPushFront => {
+                    let t = self.take(st.c);
+                    let back = st.op == Op::TryPushBack;
+                    if let Some(r) = self.call(false, || if back { b.try_push_back(t) } else { b.try_push_front(t) }) {
+                        if r.is_err() != (len == N) {
+                            self.fail(cls::ZST, format!("{} at len {len} returned {}", st.op.name(), if r.is_err() { "Err" } else { "Ok" }));
+                        }
+                        match r {
+                            Err(t) => self.hand.push(t),
+                            Ok(()) => self.len[x] += 1,
+                        }
+                    }
+                }
+                Op::PopBack | Op::PopFront | Op::Remove | Op::SwapRemoveBack | Op::SwapRemoveFront => {
+                    let op = st.op;
+                    let a = st.a;
+                    let want = match op {
+                        Op::PopBack | Op::PopFront => len > 0,
+                        _ => a < len,
+                    };
+                    if let Some(r) = self.call(false, || match op {
+                        Op::PopBack => b.pop_back(),
+                        Op::PopFront => b.pop_front(),
+                        Op::Remove => b.remove(a),
+                        Op::SwapRemoveBack => b.swap_remove_back(a),
+                        _ => b.swap_remove_front(a),
+                    }) {
+                        if r.is_some() != want {
+                            self.fail(cls::ZST, format!("{}({a}) at len {len} returned {}", op.name(), if r.is_some() { "Some" } else { "None" }));
+                        }
+                        if let Some(t) = r {
+                            self.hand.push(t);
+                            self.len[x] -= 1;
+                        }
+                    }
+                }
+                Op::Swap => {
+                    let (a, c) = (st.a, st.b);
+                    let _ = self.call(a >= len || c >= len, || b.swap(a, c));
+                }
+                Op::TruncateBack | Op::TruncateFront | Op::Clear => {
+                    let op = st.op;
+                    let a = if op == Op::Clear { 0 } else { st.a };
+                    if self.call(false, || match op {
+                        Op::TruncateBack => b.truncate_back(a),
+                        Op::TruncateFront => b.truncate_front(a),
+                        _ => b.clear(),
+                    })
+                    .is_some()
+                    {
+                        self.len[x] = len.min(a);
+                    }
+                }
+                Op::ExtendFromSlice | Op::Extend => {
+                    let k = st.vals.len();
+                    let src: Vec<Zst> = (0..k).map(|_| Zst::new()).collect();
+                    let ok = if st.op == Op::ExtendFromSlice {
+                        self.call(false, || b.extend_from_slice(&src)).is_some()
+                    } else {
+                        let r = self.call(false, || b.extend(src.into_iter())).is_some();
+                        self.allocs = 0;
+                        r
+                    };
+                    if ok {
+                        self.len[x] = if N - len >= k { len + k } else { N };
+                    }
+                }
+                Op::MakeContiguous => {
+                    if let Some(l) = self.call(false, || b.make_contiguous().len()) {
+                        if l != len {
+                            self.fail(cls::ZST, format!("make_contiguous() returned {l} elements at len {len}"));
+                        }
+                    }
+                }
+                Op::Drain | Op::Iter | Op::Range | Op::IterMut | Op::RangeMut => {
+                    let op = st.op;
+                    let rs = if op == Op::Iter || op == Op::IterMut { RangeSpec::full() } else { st.rs };
+                    let res = rs.resolve(len);
+                    let sel = res.map(|(a, c)| c - a).unwrap_or(0);
+                    let word = &st.word;
+                    let r = self.call(res.is_err(), || -> (usize, usize, Vec<Zst>) {
+                        // returns (len reported at the start, items yielded, drained items)
+                        macro_rules! walk {
+                            ($it:expr, $keep:expr) => {{
+                                let mut it = $it;
+                                let l0 = it.len();
+                                let mut y = 0usize;
+                                let mut kept: Vec<Zst> = Vec::new();
+                                for w in word.iter() {
+                                    let item = if *w == b'n' {
+                                        it.next()
+                                    } else if *w == b'b' {
+                                        it.next_back()
+                                    } else {
+                                        continue;
+                                    };
+                                    if let Some(t) = item {
+                                        y += 1;
+                                        $keep(&mut kept, t);
+                                    }
+                                }
+                                let l1 = it.len();
+                                if l0 - y != l1 {
+                                    y = usize::MAX;
+                                }
+                                (l0, y, kept)
+                            }};
+                        }
+                        match op {
+                            Op::Drain => walk!(with_range!(rs, |r| b.drain(r)), |k: &mut Vec<Zst>, t: Zst| k.push(t)),
+                            Op::Iter | Op::Range => walk!(with_range!(rs, |r| b.range(r)), |_k: &mut Vec<Zst>, _t: &Zst| {}),
+                            _ => walk!(with_range!(rs, |r| b.range_mut(r)), |_k: &mut Vec<Zst>, _t: &mut Zst| {}),
+                        }
+                    });
+                    self.allocs = 0; // the harness collects drained items in a Vec inside the window
+                    if let Some((l0, y, kept)) = r {
+                        let want_y = st.word.iter().filter(|w| **w == b'n' || **w == b'b').count().min(sel);
+                        if l0 != sel || y != want_y {
+                            self.fail(cls::ZST, format!("{} over {} selected elements: len() {l0}, yielded {y} (expected {want_y})", op.name(), sel));
+                        }
+                        self.hand.extend(kept);
+                        if op == Op::Drain {
+                            self.len[x] = len - sel;
+                        }
+                    }
+                }
+                Op::GetMut | Op::Index | Op::NthBackMut => {
+                    let a = st.a;
+                    let op = st.op;
+                    let expect_panic = op == Op::Index && a >= len;
+                    if let Some(r) = self.call(expect_panic, || match op {
+                        Op::GetMut => b.get_mut(a).is_some() && b.get(a).is_some(),
+                        Op::NthBackMut => b.nth_back_mut(a).is_some() && b.nth_back(a).is_some(),
+                        _ => {
+                            let _z: &Zst = &b[a];
+                            true
+                        }
+                    }) {
+                        if r != (a < len) {
+                            self.fail(cls::ZST, format!("{}({a}) at len {len} is {}", op.name(), if r { "Some" } else { "None" }));
+                        }
+                    }
+                }
+                Op::ToVec => {
+                    may_alloc = true;
+                    #[cfg(feature = "alloc")]
+                    if let Some(v) = self.call(false, || b.to_vec()) {
+                        if v.len() != len {
+                            self.fail(cls::ZST, format!("to_vec() has {} elements at len {len}", v.len()));
+                        }
+                    }
+                }
+                Op::CloneTo => {
+                    may_alloc = true;
+                    if let Some(nb) = self.call(false, || Box::new(b.clone())) {
+                        let old = self.bufs[y].replace(nb).unwrap();
+                        let _ = self.call(false, move || drop(old));
+                        self.len[y] = len;
+                    }
+                }
+                Op::CloneFrom => {
+                    let mut by = self.bufs[y].take().unwrap();
+                    let byr: &mut CircularBuffer<N, Zst> = &mut by;
+                    if self.call(false, || byr.clone_from(b)).is_some() {
+                        self.len[y] = len;
+                    }
+                    self.bufs[y] = Some(by);
+                }
+                Op::CmpBufs => {
+                    let other = self.bufs[y].take().unwrap();
+                    let o: &CircularBuffer<N, Zst> = &other;
+                    let ly = self.len[y];
+                    if let Some((eq, ord, h1, h2)) = self.call(false, || {
+                        let mut h1 = crate::elem::RecHasher::new();
+                        let mut h2 = crate::elem::RecHasher::new();
+                        b.hash(&mut h1);
+                        o.hash(&mut h2);
+                        (*b == *o, (*b).cmp(o), h1.finish(), h2.finish())
+                    }) {
+                        if eq != (len == ly) || ord != len.cmp(&ly) || (len == ly && h1 != h2) {
+                            self.fail(cls::ZST, format!("comparison of buffers with {len} and {ly} elements: eq {eq}, cmp {ord:?}, hashes equal {}", h1 == h2));
+                        }
+                    }
+                    self.bufs[y] = Some(other);
+                }
+                Op::DebugFmt => {
+                    let mut hw = crate::deque_sess::HookWriter(String::new());
+                    if self.call(false, || write!(hw, "{:?}", b)).is_some() {
+                        let want = format!("{:?}", (0..len).map(|_| "Z").collect::<Vec<_>>()).replace('"', "");
+                        if hw.0 != want {
+                            self.fail(cls::ZST, format!("Debug printed {} for {len} elements", hw.0));
+                        }
+                    }
+                }
+                Op::FromArray => {
+                    may_alloc = true;
+                    let k = st.vals.len().min(4);
+                    let r = self.call(false, || -> Box<CircularBuffer<N, Zst>> {
+                        Box::new(match k {
+                            0 => CircularBuffer::from([] as [Zst; 0]),
+                            1 => CircularBuffer::from([Zst::new()]),
+                            2 => CircularBuffer::from([Zst::new(), Zst::new()]),
+                            3 => CircularBuffer::from([Zst::new(), Zst::new(), Zst::new()]),
+                            _ => CircularBuffer::from([Zst::new(), Zst::new(), Zst::new(), Zst::new()]),
+                        })
+                    });
+                    if let Some(nb) = r {
+                        let old = self.bufs[y].replace(nb).unwrap();
+                        let _ = self.call(false, move || drop(old));
+                        self.len[y] = k.min(N);
+                    }
+                }
+                Op::DropHand => {
+                    self.hand.pop();
+                }
+                _ => self.fail(cls::HARNESS, format!("op {} is not part of the zst scenario", st.op.name())),
+            }
+        }
+        self.bufs[x] = Some(bx);
+        if st.op == Op::IntoIter || st.op == Op::DropBuf || st.op == Op::New {
+            // handled outside the borrow: consumes / replaces the buffer
+            self.fail = None;
+            let word = st.word.clone();
+            let buf = self.bufs[x].take().unwrap();
+            self.bufs[x] = Some(Box::new(CircularBuffer::new()));
+            if st.op == Op::IntoIter {
+                let r = self.call(false, move || {
+                    let mut it = (*buf).into_iter();
+                    let l0 = it.len();
+                    let mut kept = Vec::new();
+                    for w in word.iter() {
+                        let item = if *w == b'n' {
+                            it.next()
+                        } else if *w == b'b' {
+                            it.next_back()
+                        } else {
+                            None
+                        };
+                        if let Some(t) = item {
+                            kept.push(t);
+                        }
+                    }
+                    (l0, it.len(), kept)
+                });
+                self.allocs = 0;
+                may_alloc = true;
+                if let Some((l0, l1, kept)) = r {
+                    if l0 != len || l1 != len - kept.len() {
+                        self.fail(cls::ZST, format!("into_iter at len {len}: len() {l0} then {l1} after {} items", kept.len()));
+                    }
+                    self.hand.extend(kept);
+                }
+            } else {
+                may_alloc = true;
+                let _ = self.call(false, move || drop(buf));
+            }
+            self.len[x] = 0;
+        }
+        // ---- post-step: count model
+        if self.fail.is_none() {
+            for bi in 0..2 {
+                let b = self.bufs[bi].as_ref().unwrap();
+                let l = self.len[bi];
+                let (s0, s1) = b.as_slices();
+                if b.len() != l || b.is_empty() != (l == 0) || b.is_full() != (l == N) || b.iter().len() != l || s0.len() + s1.len() != l || b.capacity() != N {
+                    let (bl, il) = (b.len(), b.iter().len());
+                    self.fail(cls::ZST, format!("buffer {bi}: len() {bl}, iter().len() {il}, slices {}+{}; count model says {l} (N = {N})", s0.len(), s1.len()));
+                    break;
+                }
+                if b.front().is_some() != (l > 0) || b.back().is_some() != (l > 0) || b.get(l).is_some() || (l > 0 && b.get(l - 1).is_none()) || b.nth_back(l).is_some() {
+                    self.fail(cls::ZST, format!("buffer {bi}: accessors disagree with count {l} (N = {N})"));
+                    break;
+                }
+            }
+        }
+        if self.fail.is_none() {
+            let (c, d) = (CREATED.with(|c| c.get()), DESTROYED.with(|c| c.get()));
+            let live = (self.len[0] + self.len[1] + self.hand.len()) as u64;
+            if c - d != live {
+                self.fail(cls::ZST, format!("{c} elements created, {d} destructor runs, but {live} elements are in the buffers or with the caller"));
+            }
+        }
+        if self.fail.is_none() && !may_alloc && self.allocs > 0 && !self.panicked {
+            self.fail(cls::ALLOC, format!("{} performed {} heap allocation(s) of its own (ZST, N = {N})", st.op.name(), self.allocs));
+        }
+        let _ = write!(self.trace.line(), " p={} A={} B={} h={}", self.panicked as u8, self.len[0], self.len[1], self.hand.len());
+        self.trace.commit();
+        self.stats.cell([N as u64, (start.min(3) as u64) | (((N - start).min(3) as u64) << 8), size.min(8) as u64, st.op as u64, (st.a.min(9) as u64) | ((st.vals.len() as u64) << 8), 77]);
+        while self.hand.len() > 8 {
+            self.hand.pop();
+        }
+    }
+}
+
+const ZOPS: &[Op] = &[
+    Op::PushBack, Op::PushFront, Op::TryPushBack, Op::TryPushFront, Op::PopBack, Op::PopFront, Op::Remove, Op::SwapRemoveBack, Op::SwapRemoveFront, Op::Swap, Op::TruncateBack,
+    Op::TruncateFront, Op::Clear, Op::ExtendFromSlice, Op::Extend, Op::MakeContiguous, Op::Drain, Op::Iter, Op::Range, Op::IterMut, Op::RangeMut, Op::GetMut, Op::Index,
+    Op::NthBackMut, Op::ToVec, Op::CloneTo, Op::CloneFrom, Op::CmpBufs, Op::DebugFmt, Op::FromArray, Op::IntoIter, Op::DropBuf,
+];
+
+pub fn gen_zst(seed: u64, run: u64) -> Script {
+    let mut rng = Rng::new(mix(&[seed, 3, run]));
+    // stratum: capacity × front position class × initial length × focus op
+    let nidx = (run % ZST_NS.len() as u64) as usize;
+    let pos = ((run / ZST_NS.len() as u64) % 7) as usize; // 0: start 0; 1-3: start N-1..N-3; 4-6: start 1..3
+    let s0 = ((run / 70) % 5) as usize;
+    let focus = ZOPS[((run / 350) % ZOPS.len() as u64) as usize];
+    let n = ZST_NS[nidx];
+    let mut steps = Vec::new();
+    let mut len = [0usize; 2];
+    match pos {
+        1..=3 => {
+            for _ in 0..pos {
+                steps.push(Step::new(Op::PushFront));
+                steps.push(Step::new(Op::PopBack));
+            }
+        }
+        4..=6 => {
+            for _ in 0..(pos - 3) {
+                steps.push(Step::new(Op::PushBack));
+                steps.push(Step::new(Op::PopFront));
+            }
+        }
+        _ => {}
+    }
+    for k in 0..s0.min(n) {
+        steps.push(Step::new(if (k + pos) % 3 == 0 { Op::PushFront } else { Op::PushBack }));
+        len[0] += 1;
+    }
+    let tail = *rng.pick(&[0usize, 1, 2, 3, 5, 8, 12, 20]);
+    for t in 0..=tail {
+        let op = if t == 0 { focus } else { *rng.pick(ZOPS) };
+        let x = if t == 0 { 0 } else { (rng.below(4) == 0) as u8 };
+        let l = len[x as usize];
+        let mut st = Step::new(op).buf(x);
+        let idx = |rng: &mut Rng| -> usize {
+            let c = [0, 1, l.wrapping_sub(1), l, l + 1, n - 1, n, usize::MAX, usize::MAX - 1, n / 2];
+            if rng.below(3) == 0 {
+                *rng.pick(&c)
+            } else {
+                rng.below(l as u64 + 1) as usize
+            }
+        };
+        match op {
+            Op::Remove | Op::SwapRemoveBack | Op::SwapRemoveFront | Op::TruncateBack | Op::TruncateFront | Op::GetMut | Op::Index | Op::NthBackMut => st.a = idx(&mut rng),
+            Op::Swap => {
+                st.a = idx(&mut rng);
+                st.b = idx(&mut rng);
+            }
+            Op::ExtendFromSlice | Op::Extend | Op::FromArray => st.vals = vec![0; rng.below(5) as usize],
+            Op::Drain | Op::Range | Op::RangeMut | Op::Iter | Op::IterMut | Op::IntoIter => {
+                st.rs = crate::gen::range_arg(&mut rng, l, n.min(1 << 20), 15);
+                let wl = rng.below(l as u64 + 3) as usize;
+                st.word = (0..wl).map(|_| if rng.below(2) == 0 { b'n' } else { b'b' }).collect();
+            }
+            Op::PushBack | Op::PushFront | Op::TryPushBack | Op::TryPushFront => st.c = rng.below(2) as usize,
+            _ => {}
+        }
+        // keep lengths small: the count model tracks them approximately for argument choice only
+        match op {
+            Op::PushBack | Op::PushFront | Op::TryPushBack | Op::TryPushFront => len[x as usize] = (l + 1).min(n),
+            Op::PopBack | Op::PopFront => len[x as usize] = l.saturating_sub(1),
+            Op::Clear | Op::DropBuf | Op::IntoIter => len[x as usize] = 0,
+            Op::ExtendFromSlice | Op::Extend => len[x as usize] = (l + st.vals.len()).min(n),
+            Op::TruncateBack | Op::TruncateFront => len[x as usize] = l.min(st.a),
+            _ => {}
+        }
+        steps.push(st);
+        if len[x as usize] > 10 {
+            steps.push(Step::new(Op::TruncateFront).buf(x).a(3));
+            len[x as usize] = 3;
+        }
+    }
+    Script {
+        scenario: Scenario::Zst,
+        n: nidx,
+        origin: format!("seed={} prop=C19 run={} N={} frontpos={} len={} focus={}", seed, run, n, pos, s0, focus.name()),
+        garbage: Garbage::None,
+        garbage_seed: 0,
+        boxed: false,
+        transport: 0,
+        steps,
+    }
+}
